@@ -5,8 +5,11 @@ consecutive 32-bit frame numbers), `recvAck` (cumulative acknowledgement with th
 unwrap relative to the congestion window, the duplicate-ACK limit), `sendFin` (the FIN takes the
 next frame number; later writes fail).
 
-Not modelled: congestion control (`cwndSize`, `ssThresh`, RTT/RTO estimation, `framesToSend`,
-`unacked`) — it decides *when* frames are (re)sent, which no stream-level observable depends on.
+Not modelled: congestion control (`cwndSize`, `ssThresh`, RTT/RTO estimation) — it decides *when*
+frames are (re)sent, which no stream-level observable depends on.  `framesToSend` — how many entries
+of the retransmission buffer the send loop may touch on a window-open signal or a retransmission
+timeout — is modelled as the pure function it is (`framesToSend` below): the send loop indexes
+`frames[i]` for `i <` its result, and a timeout must always reach the oldest frame.
 The one place where the window enters an observable — the wrap-around test of `recvAck` — takes
 the window size as an argument (the harness sets it through a hook before the call).
 
@@ -87,5 +90,14 @@ def Sender.sendFin (s : Sender) : Sender × IoOut :=
   ({ s with finSent := true, finFrameNo := s.frameNo,
             frames := s.frames ++ [⟨s.frameNo, [], true, true⟩],
             frameNo := (s.frameNo + 1) % two32 }, .ok 0)
+
+/-- `sender.framesToSend(rto, startIndex)` on a sender with `windowSize = window`, `unacked`,
+`rtoCounter` and `len(frames) = nframes` (Go `int` arithmetic; every operand is far below 2^62) -/
+def framesToSend (window unacked : Nat) (rtoCounter : Int) (nframes : Nat) (rto : Bool) (start : Int) : Int :=
+  let n0 : Int :=
+    if rto then (if rtoCounter < (window : Int) then rtoCounter + 1 else (window : Int))
+    else (window : Int) - (unacked : Int) - start
+  let n1 : Int := if n0 + start > (nframes : Int) then (nframes : Int) - start else n0
+  if n1 < 0 then 0 else n1
 
 end Tubes
